@@ -2,7 +2,10 @@
 package vsync
 
 import (
+	"fmt"
+	"sort"
 	"sync"
+	"unsafe"
 
 	"github.com/go-task/task/v3/zverif/vsched"
 )
@@ -13,7 +16,6 @@ type (
 	WaitGroup = vsched.WaitGroup
 	Once      = vsched.Once
 	Cond      = vsched.Cond
-	Map       = sync.Map
 	Pool      = sync.Pool
 	Locker    = sync.Locker
 )
@@ -41,5 +43,50 @@ func OnceValues[T1, T2 any](f func() (T1, T2)) func() (T1, T2) {
 	return func() (T1, T2) {
 		o.Do(func() { v1, v2 = f() })
 		return v1, v2
+	}
+}
+
+// Map is sync.Map whose operations are scheduling points on the map as one shared object.
+type Map struct{ m sync.Map }
+
+func (x *Map) pt(l string)            { vsched.AtomicPoint(unsafe.Pointer(x), l) }
+func (x *Map) Load(k any) (any, bool) { x.pt("syncmap.load"); return x.m.Load(k) }
+func (x *Map) Store(k, v any)         { x.pt("syncmap.store"); x.m.Store(k, v) }
+func (x *Map) Delete(k any)           { x.pt("syncmap.delete"); x.m.Delete(k) }
+func (x *Map) Clear()                 { x.pt("syncmap.clear"); x.m.Clear() }
+func (x *Map) LoadOrStore(k, v any) (any, bool) {
+	x.pt("syncmap.loadorstore")
+	return x.m.LoadOrStore(k, v)
+}
+func (x *Map) LoadAndDelete(k any) (any, bool) {
+	x.pt("syncmap.loadanddelete")
+	return x.m.LoadAndDelete(k)
+}
+func (x *Map) Swap(k, v any) (any, bool) { x.pt("syncmap.swap"); return x.m.Swap(k, v) }
+func (x *Map) CompareAndSwap(k, o, n any) bool {
+	x.pt("syncmap.cas")
+	return x.m.CompareAndSwap(k, o, n)
+}
+func (x *Map) CompareAndDelete(k, o any) bool {
+	x.pt("syncmap.cad")
+	return x.m.CompareAndDelete(k, o)
+}
+
+// Range visits the entries in a canonical order (sorted by the printed key), so that a schedule
+// replays identically.
+func (x *Map) Range(f func(k, v any) bool) {
+	x.pt("syncmap.range")
+	type kv struct {
+		s    string
+		k, v any
+	}
+	var all []kv
+	x.m.Range(func(k, v any) bool { all = append(all, kv{fmt.Sprintf("%T:%v", k, k), k, v}); return true })
+	sort.Slice(all, func(i, j int) bool { return all[i].s < all[j].s })
+	for _, e := range all {
+		x.pt("syncmap.range.step")
+		if !f(e.k, e.v) {
+			return
+		}
 	}
 }
